@@ -110,6 +110,65 @@ def build(tier, work, builder):
     J("c03_prefix", "h_c03_prefix", ["expression_t::print (UNARY_MINUS, NOT, PRE_INCREMENT, PRE_DECREMENT clauses)", "embrace"])
     J("c03_kf_binary", "h_c03_binary", ["expression_t::print (binary-operator clause)"], h=hobj_kf,
       known={r"left-operand-printed-without-parentheses": "C03-KF1"}, note="unrestricted: fails exactly inside the known-finding class")
+    # ---- K2: query operand layout, builder versus printer
+    from checks import C19
+    q = C19.expr_core(work)
+    tp = T.type_preds(); write(work, "type_preds.inc", tp.text)
+    hpp = X.Source("include/utap/ExpressionBuilder.hpp")
+    fc = X.braced(hpp, "class ExpressionBuilder::ExpressionFragments", r"^\s*class ExpressionFragments\b")
+    write(work, "fragments_class.inc", fc.text + "\n")
+    eb = X.Source("src/ExpressionBuilder.cpp")
+    bl = [X.function(eb, "ExpressionFragments::pop(n)", r"^void ExpressionBuilder::ExpressionFragments::pop\(uint32_t n\)"),
+          X.function(eb, "ExpressionBuilder::make_constant(int)", r"^expression_t ExpressionBuilder::make_constant\(int value\) const"),
+          X.function(eb, "ExpressionBuilder::expr_proba_quantitative", r"^void ExpressionBuilder::expr_proba_quantitative\(Constants::kind_t pathType\)"),
+          X.function(eb, "ExpressionBuilder::expr_proba_qualitative", r"^void ExpressionBuilder::expr_proba_qualitative\(Constants::kind_t pathType, Constants::kind_t comp, double probBound\)"),
+          X.function(eb, "ExpressionBuilder::expr_proba_expected", r"^void ExpressionBuilder::expr_proba_expected\(const char\* aggregatingOp\)")]
+    for sl in bl:
+        sl.sub("L15:auto&->expression_t&", r"auto& (\w+) = fragments\[", r"expression_t& \1 = fragments[")
+        sl.sub("L15:auto->bool", r"auto invert = ", "bool invert = ")
+        sl.sub("L23:std::move(x)->x", r"std::move\((\w+)\)", r"\1")
+        # auto args = std::vector<expression_t>{a, b, ...};  ->  vector built by push_back in the same order (L4)
+        m = re.search(r"auto args = std::vector<expression_t>\{(.*?)\};", sl.text, re.S)
+        if m:
+            items, depth, cur = [], 0, ""
+            for ch in m.group(1):
+                if ch in "([{":
+                    depth += 1
+                if ch in ")]}":
+                    depth -= 1
+                if ch == "," and depth == 0:
+                    items.append(cur.strip()); cur = ""
+                else:
+                    cur += ch
+            items.append(cur.strip())
+            rep = "std::vector<expression_t> args; " + " ".join("{ expression_t verif_x = %s; args.push_back(verif_x); }" % it for it in items)
+            sl.text = sl.text[:m.start()] + rep + sl.text[m.end():]
+            sl.rules["L4:vector{a, b, ...}->push_back in order"] = 1
+    pe = bl[-1]
+    mm = re.search(r"int aggOpId;.*?// TODO[^\n]*\n", pe.text, re.S)
+    if not mm:
+        raise X.ExtractionBroken("expr_proba_expected: the min/max string dispatch changed shape")
+    pe.text = pe.text[:mm.start()] + "int aggOpId = aggOpId_is_max; /* strcmp(\"min\"/\"max\") dispatch dropped: the harness passes the id */\n" + pe.text[mm.end():]
+    pe.sub("glue:const char* aggregatingOp->id", r"const char\* aggregatingOp", "int aggOpId_is_max", required=True)
+    pe.rules["C7:string dispatch of expr_proba_expected replaced by its result"] = 1
+    write(work, "query_builder_funcs.inc", "\n".join(s.text for s in bl) + "\n")
+    pbt = X.function(src, "expression_t::print_bound_type", r"^std::ostream& expression_t::print_bound_type\(std::ostream& os, expression_t e\) const")
+    pbt.sub("L12:print on a child->contract", r"\be\.print\(", "e.print__contract(", required=True)
+    ist = X.function(src, "expression_t::is_true", r"^bool expression_t::is_true\(\) const")
+    qcl = []
+    for lab in ("PROBA_MIN_BOX", "PROBA_MIN_DIAMOND", "PROBA_BOX", "PROBA_DIAMOND", "PROBA_EXP"):  # X_BOX sets the flag and falls through into X_DIAMOND
+        cl = X.switch_clause(src, f"expression_t::print:case {lab}", pf, lab)
+        cl.sub("L12:print on a child->contract", r"\)\.print\(", ").print__contract(")
+        qcl.append(cl)
+    qtxt = (ist.text + "\n" + pbt.text + "\nstd::ostream& expression_t::print_query_clauses(std::ostream& os, bool old) const\n{\n    bool flag = false;\n"
+            "    switch (data->kind) {\n" + "\n".join(c.text for c in qcl) + "\n    default: break;\n    }\n    return os;\n}\n")
+    write(work, "query_print_funcs.inc", qtxt)
+    slices += q + [fc] + bl + [ist, pbt] + qcl
+    qobj = builder.cc(os.path.join(CDIR, "pq03.cpp"), includes=[work, os.path.join(X.REPO, "include")], cpp=True)
+    for nm, fns in (("quantitative", ["ExpressionBuilder::expr_proba_quantitative", "expression_t::print (PROBA_BOX/PROBA_DIAMOND)"]),
+                    ("qualitative", ["ExpressionBuilder::expr_proba_qualitative", "expression_t::print (PROBA_MIN_BOX/PROBA_MIN_DIAMOND)"]),
+                    ("expected", ["ExpressionBuilder::expr_proba_expected", "expression_t::print (PROBA_EXP)"])):
+        jobs.append(F.Job("c03_query_" + nm, "h_c03_query_" + nm, [qobj, hobj], timeout=300, unwind=26, functions=fns + ["expression_t::print_bound_type", "expression_t::get_value/get_double_value (assertions)"]))
     return {
         "jobs": jobs, "slices": [s.info() for s in slices],
         "drops": ["operator spellings and all other text the printer emits (only parentheses and which child is printed are logged)",
